@@ -755,6 +755,16 @@ class Canon:
         return ("cmp", op, a, b)
 
     def _e_Call(self, e: ast.Call) -> S:
+        # list(map(lambda x: e, xs)) == [e for x in xs]
+        if isinstance(e.func, ast.Name) and e.func.id == "list" and len(e.args) == 1 and not e.keywords and isinstance(e.args[0], ast.Call) \
+                and isinstance(e.args[0].func, ast.Name) and e.args[0].func.id == "map" and len(e.args[0].args) == 2 and not e.args[0].keywords \
+                and isinstance(e.args[0].args[0], ast.Lambda) and not isinstance(e.args[0].args[1], ast.Starred):
+            lam = e.args[0].args[0]
+            la = lam.args
+            if len(la.args) == 1 and not (la.posonlyargs or la.kwonlyargs or la.vararg or la.kwarg or la.defaults):
+                comp = ast.ListComp(elt=lam.body, generators=[ast.comprehension(target=ast.Name(id=la.args[0].arg, ctx=ast.Store()),
+                                                                                iter=e.args[0].args[1], ifs=[], is_async=0)])
+                return self.expr(ast.copy_location(comp, e))
         fn = self.expr(e.func)
         args: list[S] = []
         for a in e.args:
@@ -1924,9 +1934,31 @@ def _unfold_list_comps(block: tuple, fresh) -> tuple:
 def _index_loops(block: tuple) -> tuple:
     """``for i in range(a, len(L)): ... L[i] ...`` (the index used for nothing but reading ``L[i]``, ``L`` not re-bound or
     stored into in the loop) is the loop over the elements ``for x in L[a:]: ... x ...``"""
+    def pure_path(x):
+        return isinstance(x, tuple) and (x[:1] in (("v",), ("p",), ("g",)) or x == ("self",) or (x[:1] == ("a",) and len(x) == 3 and pure_path(x[1])))
+
+    def items_loop(st):
+        """``for k, v in d.items(): ... v ...`` (d a plain name / attribute path, neither stored into, re-bound nor called on in the
+        loop; k and v not re-bound) is ``for k in d: ... d[k] ...``"""
+        var, it, body = st[1], st[2], st[3]
+        if not (isinstance(var, tuple) and var[:1] == ("tuple",) and len(var[1]) == 2 and all(isinstance(x, tuple) and x[:1] == ("v",) for x in var[1])
+                and isinstance(it, tuple) and it[:1] == ("c",) and isinstance(it[1], tuple) and it[1][:1] == ("a",) and it[1][2] == "items"
+                and not it[2] and not it[3] and pure_path(it[1][1])):
+            return st
+        d, (k, v) = it[1][1], var[1]
+        for x in atoms_of(body, lambda y: y[0] in ("set", "aug", "del", "mset", "for") and len(y) >= 3):
+            tgts = x[1] if x[0] == "mset" else ((x[2],) if x[0] == "aug" else (x[1],))
+            for t in tgts:
+                if contains(t, d) or t in (k, v) or (isinstance(t, tuple) and t[:1] == ("tuple",) and (k in t[1] or v in t[1])):
+                    return st
+        if atoms_of(body, lambda y: y[0] == "c" and isinstance(y[1], tuple) and y[1][:1] == ("a",) and y[1][1] == d):
+            return st
+        return ("for", k, d, Sigma(raw_subst={v: ("s", d, k)}).apply(body), st[4])
+
     def conv(st):
         if not (isinstance(st, tuple) and st and st[0] == "for" and len(st) == 5 and not st[4]):
             return st
+        st = items_loop(st)
         var, it, body = st[1], st[2], st[3]
         if not (isinstance(var, tuple) and var[:1] == ("v",) and isinstance(it, tuple) and it[:2] == ("c", ("g", "range")) and not it[3]):
             return st
